@@ -3,9 +3,11 @@ PROPS["C02"] = {
              {"cmd": "c02.sugar", "quick": 40, "thorough": 400, "thorough_seeds": 3}],
     "nontrivial": lambda c: len(c["input"]) > 80,
     "rule": "random conflict-free CFGs (as C01) whose rules carry a random laminar family of '-> Type' arrows (nested parenthesised parts, whole-rule arrows, arrows on empty rules, parts made of nullable nonterminals), "
+            "in half of the grammars one or two rules end with a fresh nullable tail (T : 'z' | %empty), and in two grammars of three the rules carry state markers (.m0 .. .m2) at any position, "
+            "also at the end of a rule and behind a nullable tail (markers occupy no stack slot and no report position: the arrows' positions and the derivation trees are those of the rule without them), "
             "rendered to event-based .tm grammars with and without fixWhitespace / optimizeTables, generated and built from /repo's tree; per grammar 14 random derivation trees per input, texts with and without random blanks between tokens; "
             "one case per grammar: the listener callbacks of the generated parser for every sample; "
-            "c02.sugar: the same with optional terminals ('x'?) and mid-rule actions in the rules, so that arrows become empty in some expansions and extracted action nonterminals shift the report positions; "
+            "c02.sugar: the same with optional terminals ('x'?) and mid-rule actions in the rules (state markers in the rules without actions), so that arrows become empty in some expansions and extracted action nonterminals shift the report positions; "
             "expansions are matched to the compiler's rules by shape, the specification works on the arrows as written",
     "modelled": "gen/templates/go_parser.go.tmpl: parse loop with applyRule (report ranges, rule default type), fixTrailingWS, reportRange, offsets of empty reductions (Gram/Events.v xrun). "
                 "compiler/compiler.go generateTables (traverse: arrows -> reports, promotion of the last full range to the rule type) is NOT modelled: its output (per-rule Type/Report/HasTrailingNulls) is an input of the model, "
